@@ -1210,6 +1210,16 @@ impl ASN1Value {
                 *self = ASN1Value::SequenceOrSet(struct_value);
                 self.link_with_type(tlds, ty, type_name)
             }
+            // the same where the governing type was reached through a type reference
+            (
+                ASN1Type::SetOf(_)
+                | ASN1Type::SequenceOf(_)
+                | ASN1Type::Set(_)
+                | ASN1Type::Sequence(_),
+                ASN1Value::LinkedNestedValue { value, .. },
+            ) if matches![**value, ASN1Value::ObjectIdentifier(_)] => {
+                value.link_with_type(tlds, ty, type_name)
+            }
             (ASN1Type::Set(s), ASN1Value::SequenceOrSet(val))
             | (ASN1Type::Sequence(s), ASN1Value::SequenceOrSet(val)) => {
                 *self = Self::link_struct_like(val, s, tlds, type_name)?;
